@@ -241,8 +241,15 @@ def r2(idx, rep):
         bad = None
         for S in sets:
             st = dict(consts)
-            st["self.qualifiers"] = None if S is None else list(S)
-            ps = Interp(idx, types={"self": "Variable"}, unknown_calls="residual").run_all(pr, store=st)
+            st.update(K.ctor_literals(idx, "Variable"))
+            it = Interp(idx, types={"self": "Variable"}, unknown_calls="residual", inline={f"{c.name}.qualifiers" for c in idx.mro("Variable")})
+
+            def program(i, S=S):
+                # the qualifiers get there the way they do in the package: through the `qualifiers` setter (None included)
+                i.assign(ast.parse("self.qualifiers = 0").body[0].targets[0], None if S is None else list(S), {"__self__": "self"})
+                return i.call_function(pr, {"__pos__": []}, "self")
+
+            ps = it.run_program(program, st)
             want = bool(S) and prop in S
             if len(ps) != 1 or ps[0].result[0] != "return" or bool(ps[0].result[1]) is not want or isinstance(ps[0].result[1], Residual):
                 bad = bad or f"qualifiers {S}: .{prop} is {[p.result for p in ps][:2]}, documented {want} (each qualifier is independent of the others)"
